@@ -351,7 +351,8 @@ Inv_FullExact == Report("FullExact",
 \* expand_block return True at once)
 FreshPre == Len(pre.nodes) = 1 /\ ~pre.nodes[1].expanded
 Inv_MinExact == Report("MinExact",
-    ((Completed({"bfs", "dfs", "min", "aseeds"}) /\ FromRoot /\ Unlimited)
+    \* (a level- or stack-limited call that returns True claims completion like an unlimited one)
+    ((Completed({"bfs", "dfs", "min", "aseeds"}) /\ FromRoot)
        \/ (Completed({"block", "scc"}) /\ FreshPre)
        \/ (Started /\ ev.op = "skiprem" /\ ~ev.raised) \/ (Started /\ ev.op = "build" /\ ~ev.raised /\ FreshPre))
     => MinExact(S, D))
